@@ -1,5 +1,9 @@
 """C16 — Sync finds the first plausible packet header and leaves the reader on it.
-Cases: io.sync <stream> <terminal error 50=EOF|60=reader error> <bufio size> <underlying reader mode>."""
+Cases: io.sync <stream> <terminal error 50=EOF|60=reader error> <bufio size> <underlying reader mode>
+         model: Sync over the reader ORACLE; real: Sync over bufio.Reader over a fragmenting reader
+       io.syncb <read script> <bufio size>
+         model: Sync over the MODEL of bufio.Reader (Model/Bufio.v) over the scripted reader;
+         real: Sync over the real bufio.NewReaderSize over the same script."""
 from vlib import Case, hx, parse_val
 
 PROP = "C16"
@@ -8,8 +12,11 @@ RULE = ("streams = garbage prefix containing 0..5 false sync bytes (0x47 followe
         "0x47 runs, 0x47 inside the last three bytes) + optionally a plausible header and packets, or cut by end of stream "
         "1..3 bytes after a 0x47; every stream is run over bufio sizes 16..4096 on top of one-byte / half / full / "
         "data-with-error underlying readers, with io.EOF or a reader error as terminal error; all 4-byte header classes "
-        "(sync/non-sync x AFC x PID class) at offsets 0..4 are enumerated completely; non-trivial = the stream contains at "
-        "least one 0x47 (the unread/peek path is taken)")
+        "(sync/non-sync x AFC x PID class) at offsets 0..4 are enumerated completely; the same streams as read scripts "
+        "(chunks of 1,2,3,5,7,16,17,47 bytes, random cuts, one chunk; EOF or error with or after the last data) through the "
+        "bufio model and the real bufio.Reader with sizes 0(=16),16,17,20,32,188,4096 (op io.syncb); scripts with zero-length "
+        "reads and io.ErrNoProgress as fidelity cases; non-trivial = the stream contains at least one 0x47 (the unread/peek "
+        "path is taken)")
 EXHAUSTIVE = False
 EXHAUSTIVE_NOTE = ("the header classes (first byte 0x47/other x AFC 0..3 x PID in {0,3,4,5,15,16,0x1fff}) x offset 0..4 x false-sync "
                    "count 0..5 are enumerated completely on every run; the stream space is covered by the theorems")
@@ -17,7 +24,11 @@ ASSUMPTIONS = [
     "reader oracle: bufio.Reader over an io.Reader that delivers a finite byte string and then a sticky terminal error "
     "(io.EOF or another error); ReadByte/UnreadByte/Peek(4) behave as documented for bufio (Peek fails with the terminal "
     "error when fewer than 4 bytes remain; UnreadByte succeeds after a successful ReadByte; buffer size >= 16 so "
-    "ErrBufferFull cannot occur); the model is independent of buffer size and fragmentation, goexec varies both",
+    "ErrBufferFull cannot occur); the oracle is independent of buffer size and fragmentation, goexec varies both",
+    "the oracle contract is PROVED of a transcription of bufio.Reader (Model/Bufio.v: fill, readErr, ReadByte, UnreadByte, "
+    "Peek of Go 1.23) for every buffer size and every read script without (0, nil) reads (C16_sync_over_bufio); that "
+    "transcription is compared with the real bufio.Reader on every run (io.syncb), also on scripts with zero-length reads",
+    "underlying io.Reader: finite script, sticky error, never more than len(p) bytes per Read (as in C18)",
     "int64 offset does not overflow (streams shorter than 2^63 bytes)",
     "theorems quantify over all lists of bytes (< 256) and all terminal errors",
 ]
@@ -305,8 +316,10 @@ LEVEL_TEXT = ("Proof: Coq theorems (Properties/C16.v) over a model of Sync/IsSyn
               "oracle with bufio semantics: for ALL byte streams and all terminal errors the result is the least index holding "
               "a plausible header with the reader positioned exactly there (the next 188 bytes read are the packet), "
               "sync-not-found when there is none before EOF, the reader's own error otherwise; never Panic/Diverge. By "
-              "induction on the stream, no axioms. Tied to /repo on every run by executing model and real Sync over "
-              "bufio.Reader sizes 16..4096 on one-byte/half/full/data+error underlying readers.")
-LEVEL_NOTE = ("Trusted: Coq kernel; the transcription Model/IO.v; the reader oracle as a statement of bufio.Reader's documented "
-              "ReadByte/UnreadByte/Peek behaviour (exercised, not proved: goexec runs the real bufio.Reader); extraction and glue.")
+              "induction on the stream, no axioms. The oracle is discharged for a model of bufio.Reader: Sync over that model, "
+              "for every buffer size and every fragmentation of the underlying reader, is proved to behave as over the oracle. "
+              "Tied to /repo on every run by executing model and real Sync over bufio.Reader sizes 16..4096 on "
+              "one-byte/half/full/data+error underlying readers, and the bufio model against the real bufio.Reader.")
+LEVEL_NOTE = ("Trusted: Coq kernel; the transcriptions Model/IO.v and Model/Bufio.v (the latter of Go's bufio, window "
+              "representation of the buffer array; both exercised against the real code on every run); extraction and glue.")
 TECHNIQUE = "Coq proof by induction on the stream over a bufio reader oracle + model/implementation correspondence over buffer sizes and fragmentations"
